@@ -6,6 +6,7 @@ construction, round trips, versioning and store traffic of custom instances.  Re
 dict seeded from a snapshot of the registries; compared in full after every op.
 """
 import json
+import re
 
 from . import Profile, COMPONENTS_COMMON
 from .. import catalog as C
@@ -60,7 +61,7 @@ class C19(Profile):
     needs_disk = False
     tiers = {'quick': 12000, 'thorough': 600000}
     wall_cap = {'quick': 900, 'thorough': 5 * 3600}
-    probes = ['duplicate_refused', 'invalid_name_refused', 'invalid_propname_refused', 'ref_named_nonref_refused',
+    probes = ['reference_to_registered_custom_type', 'duplicate_refused', 'invalid_name_refused', 'invalid_propname_refused', 'ref_named_nonref_refused',
               'cross_category_name', 'extension_name_form', 'failed_registration_checked', 'parse_registered_custom',
               'parse_unregistered_strict_refused', 'parse_unregistered_custom_mode_dict', 'version_scoped_negative',
               'custom_roundtrip', 'custom_new_version', 'custom_store_roundtrip', 'custom_marking_used', 'custom_extension_used',
@@ -538,6 +539,28 @@ class C19(Profile):
                 raise Violation('custom-instances', 'C19.use/roundtrip/%s' % cat,
                                 dict(name=name, ver=ver, exc=repr(back.exc)[:200] if not back.ok else None, text=text[:300]))
             world.probe('custom_roundtrip')
+            if cat == 'objects' and not name.startswith('x-') and re.match(r'^[a-z][a-z0-9]*(-[a-z0-9]+)*$', name) and len(name) < 100:
+                # a registered object type is a legal target of the generic reference properties of ITS version (an `x-` name is
+                # custom content in a reference whatever the registry says, so only other names are asked about) - and of that
+                # version only: where the name is not registered, the same reference is refused
+                mods = {'2.0': s.v20, '2.1': s.v21}
+                rid = obj['id']
+
+                def refs(mod, v):
+                    extra = {'labels': ['threat-report']} if v == '2.0' else {}
+                    return [('sighting_of_ref', call(lambda: mod.Sighting(sighting_of_ref=rid))),
+                            ('object_refs', call(lambda: mod.Report(name='r', published='2017-01-01T00:00:00Z', object_refs=[rid], **extra)))]
+                for prop, out in refs(mods[ver], ver):
+                    if not out.ok:
+                        raise Violation('custom-instances', 'C19.use/reference-to-registered-type-refused/%s/%s' % (ver, prop),
+                                        dict(name=name, ver=ver, exc=repr(out.exc)[:300]))
+                other = '2.1' if ver == '2.0' else '2.0'
+                if name not in self.model[other]['objects'] and name not in self.model[other]['observables']:
+                    for prop, out in refs(mods[other], other):
+                        if out.ok:
+                            raise Violation('custom-instances', 'C19.use/reference-accepted-for-type-registered-in-other-version-only/%s/%s' % (other, prop),
+                                            dict(name=name, registered_for=ver))
+                world.probe('reference_to_registered_custom_type')
             if info['props'] == 'legal_own_versioning' and cat == 'observables' and ver == '2.1':
                 # instances of such a type are versionable like any other object: with `revoked` left unset, under a clock that
                 # stands still / steps back / moves by less than a millisecond
